@@ -240,6 +240,73 @@ func runC13(p *core.Prog, r *core.Report) {
 			}
 		}
 	}
+	// ---------------- R5 who may remove files of the tree
+	r5 := r.Rule("C13.R5", "files of the tree are removed only by the delete operation and by the tabled removers of temporary names; no writer removes anything at a final object path", 4)
+	removers := map[string]string{
+		"(*" + fst + "FSTree).Delete":                "the delete operation: removes the object's own file",
+		"(*" + fst + "FSTree).CleanUpTmp":            "start-up cleaner: only names containing the temporary-name separator",
+		"(*" + fst + "genericWriter).writeAndRename": "removes its own temporary file after a failed write",
+		fst + "rewriteCompressedObjectFile":          "temporary / link names of the compressed-file rewrite",
+		fst + "replaceRewriteCompressedObjectFile":   "temporary name of the compressed-file rewrite",
+		fst + "checkRewriteCompressedOnlineSupport":  "probe files of the start-up capability check",
+	}
+	nrm := 0
+	for _, s := range core.CallSites(p.FuncsIn("pkg/local_object_storage/blobstor/fstree"), func(s core.Site) bool {
+		switch s.Name {
+		case "os.Remove", "os.RemoveAll", "golang.org/x/sys/unix.Unlink", "golang.org/x/sys/unix.Unlinkat", "syscall.Unlink", "syscall.Unlinkat", "syscall.Rmdir", "os.Truncate":
+			return true
+		}
+		return false
+	}) {
+		nrm++
+		outer := core.FuncName(core.Outer(s.Fn))
+		why, ok := removers[outer]
+		r5.Check(ok, outer+"#"+s.Name, p.InstrPos(s.Call), "tabled remover: "+why, outer+" removes a file but is not a tabled remover: a writer that 'cleans up' at the final object path deletes the complete copy an earlier acknowledged write put there")
+	}
+	if nrm == 0 {
+		r.Fatalf("C13.R5: no file removal found in fstree (not even Delete)")
+	}
+}
+
+// pathWriterParam: fn succeeds only after the file named by its parameter i was opened, written and closed
+// successfully (directly, or through a callee with that property that gets the parameter); -1 if there is none.
+func pathWriterParam(p *core.Prog, fn *ssa.Function, depth int) int {
+	if fn == nil || fn.Blocks == nil || depth == 0 {
+		return -1
+	}
+	res := fn.Signature.Results()
+	if res.Len() == 0 || res.At(res.Len()-1).Type().String() != "error" {
+		return -1
+	}
+	for i := range fn.Params {
+		if fn.Params[i].Type().String() != "string" {
+			continue
+		}
+		i := i
+		direct := []core.Guard{
+			{Name: "opened", Match: func(s core.Site) bool {
+				return s.Name == "os.OpenFile" && core.RootParam(fn, s.Call.Common().Args[0]) == i
+			}, Comps: []core.Comp{{Result: 1, Kind: core.ErrNil}}},
+			{Name: "written", Match: func(s core.Site) bool { return s.Name == "(*os.File).Write" }, Comps: []core.Comp{{Result: 1, Kind: core.ErrNil}}},
+			{Name: "closed", Match: func(s core.Site) bool { return s.Name == "(*os.File).Close" }, Comps: []core.Comp{{Result: -1, Kind: core.ErrNil}}},
+		}
+		if len(core.CallSites([]*ssa.Function{fn}, direct[0].Match)) > 0 && core.SuccessHolds(p, fn, core.SuccessRule{ResultIdx: -1, Guards: direct}) {
+			return i
+		}
+		via := core.Guard{Name: "callee-wrote-it", Comps: []core.Comp{{Result: -1, Kind: core.ErrNil}}, Match: func(s core.Site) bool {
+			cal := core.StaticCallee(s.Call)
+			if cal == nil || cal == fn || core.FuncPkg(cal) != core.FuncPkg(fn) {
+				return false
+			}
+			j := pathWriterParam(p, cal, depth-1)
+			a := s.Call.Common().Args
+			return j >= 0 && j < len(a) && core.RootParam(fn, a[j]) == i
+		}}
+		if len(core.CallSites([]*ssa.Function{fn}, via.Match)) > 0 && core.SuccessHolds(p, fn, core.SuccessRule{ResultIdx: -1, Guards: []core.Guard{via}}) {
+			return i
+		}
+	}
+	return -1
 }
 
 // lenMatches: guard "the byte count returned by callee equals the expected length":
@@ -273,9 +340,34 @@ func runC12(p *core.Prog, r *core.Report) {
 	core.CheckEffects(p, r1, core.EffectRule{Fn: "(*" + fst + "linuxWriter).writeFile", Min: 1,
 		Guards: append([]core.Guard{wv("golang.org/x/sys/unix.Write")}, lg...), Derived: []core.Derived{ld},
 		Effect: core.CallTo("golang.org/x/sys/unix.Linkat"), Need: func(string) []string { return []string{"data-written", "full-length-written"} }})
-	core.CheckEffects(p, r1, core.EffectRule{Fn: "(*" + fst + "genericWriter).writeAndRename", Min: 1,
-		Guards: []core.Guard{core.G("temporary-file-complete", core.ErrNil, "(*"+fst+"genericWriter).writeFile")},
-		Effect: core.CallTo("os.Rename")})
+	// generic writer: wherever it renames a file into place, the renamed file is the very one whose complete write
+	// succeeded (same path value) — whichever helper functions the write and the rename live in
+	nRen := 0
+	for _, fn := range p.FuncsIn("pkg/local_object_storage/blobstor/fstree") {
+		if !strings.Contains(core.FuncName(core.Outer(fn)), "genericWriter)") {
+			continue
+		}
+		rens := core.CallSites([]*ssa.Function{fn}, func(s core.Site) bool { return s.Name == "os.Rename" })
+		if len(rens) == 0 {
+			continue
+		}
+		mr := core.NewMemReach(fn)
+		for _, rs := range rens {
+			nRen++
+			src := mr.Canon(rs.Call.Common().Args[0])
+			g := core.Guard{Name: "renamed-file-completely-written", Comps: []core.Comp{{Result: -1, Kind: core.ErrNil}}, Match: func(s core.Site) bool {
+				i := pathWriterParam(p, core.StaticCallee(s.Call), 3)
+				a := s.Call.Common().Args
+				return i >= 0 && i < len(a) && mr.Canon(a[i]) == src
+			}}
+			gf := core.Flow(fn, []core.Guard{g})
+			r1.Check(gf.Passed(gf.At(rs.Call.(ssa.Instruction)), 0), core.FuncName(fn)+"#os.Rename!renamed-file-completely-written", p.InstrPos(rs.Call), "the file renamed into place is the one whose open/write/close all succeeded",
+				"the generic writer renames a file into the final path without a successful complete write of THAT file on every path (another temporary name was written, or none): a stale or partial temporary file becomes the object")
+		}
+	}
+	if nRen == 0 {
+		r.Fatalf("C12.R1: the generic writer no longer renames anything into place")
+	}
 	// R2 value flow of the final path
 	r2 := r.Rule("C12.R2", "the final object path flows only into the link/rename target, the temporary name and error messages — never into a file-creating call", 4)
 	type pathFn struct {
